@@ -96,7 +96,7 @@ func decideClaims(in *input, e *expectation) {
 	}
 	subject, actor := in.subj.sub, ""
 	if in.act.state != "missing" {
-		actor = in.act.sub
+		actor = in.act.actorName()
 	}
 	hostile := func() {
 		src := hostileAT
